@@ -24,6 +24,7 @@ fn coords4() -> Buf2<(u32, u32)> {
 // @fn SamplerRepeatPot::new ; SamplerRepeatPot::sample_abs ; SamplerRepeatPot::sample
 // @bound texture sizes: every power-of-two size in {1,2,4}x{1,2,4}, owned buffer; complete in the coordinates (all f32 pairs, NaN and infinities included)
 // @clause the repeating sampler never panics for any coordinate and, for |u|,|v| < 2^31, returns the texel at (floor(u) mod w, floor(v) mod h); the relative entry point equals the absolute one at (w*u, h*v)
+#[cfg(not(verif_skip_tex_repeat_pot_addressing))]
 #[kani::proof]
 #[kani::unwind(20)]
 fn tex_repeat_pot_addressing() {
@@ -50,6 +51,7 @@ fn tex_repeat_pot_addressing() {
 // @fn SamplerRepeatPot::new
 // @clause the repeating sampler's constructor rejects every texture whose width or height is not a power of two (sizes up to 4x4 enumerated symbolically via a borrowed sub-region)
 // @allow_panic SamplerRepeatPot::new.*: (This is a placeholder message|.*must be 2)
+#[cfg(not(verif_skip_tex_repeat_pot_rejects_non_pot))]
 #[kani::proof]
 #[kani::unwind(20)]
 fn tex_repeat_pot_rejects_non_pot() {
@@ -68,6 +70,7 @@ fn tex_repeat_pot_rejects_non_pot() {
 // @bound texture sizes: every size 1..4 x 1..4 as a borrowed sub-region at every offset of a 4x4 buffer; complete in the coordinates (all f32 pairs)
 // @clause the clamping sampler never panics for any coordinate (NaN, infinities included) and returns the texel at floor(clamp(c, 0, size-1)); for in-range coordinates the unchecked sampler agrees with it; relative entry points equal the absolute ones at (w*u, h*v)
 #[cfg(feature = "fp")]
+#[cfg(not(verif_skip_tex_clamp_once_addressing))]
 #[kani::proof]
 #[kani::unwind(20)]
 fn tex_clamp_once_addressing() {
@@ -103,6 +106,7 @@ fn tex_clamp_once_addressing() {
 // @fn SamplerRepeatPot::sample_abs ; SamplerOnce::sample_abs
 // @bound texture sizes: power-of-two sizes {1,2,4}^2 as a borrowed sub-region at every aligned offset of a 4x4 buffer; complete in the coordinates
 // @clause on borrowed sub-region textures the repeating sampler addresses relative to the region (never outside it), and agrees with the unchecked sampler for in-range coordinates
+#[cfg(not(verif_skip_tex_repeat_pot_subregion))]
 #[kani::proof]
 #[kani::unwind(20)]
 fn tex_repeat_pot_subregion() {
